@@ -460,20 +460,26 @@ pub fn digest_specs() -> Vec<RuleSpec> {
     v.extend(gen::family_matrix(0).into_iter().step_by(7));
     v.extend(gen::family_bodies(0).into_iter().step_by(3));
     v.extend(gen::family_single(0).into_iter().step_by(5));
+    v.extend(gen::family_regex(3));
     v
 }
 
-/// digest of (optimised Display, verdict table) over a slice of the universe, in this process
-pub fn digest() -> (u64, usize) {
+/// per-rule digests of (optimised Display, verdict table, serialised form) over a slice of the
+/// universe, computed in this process in the given processing order (results are reported in
+/// canonical order, so a dependence on what was processed before shows as a difference)
+pub fn digest(reverse: bool) -> (u64, usize, Vec<u64>) {
     let specs = digest_specs();
-    let mut acc: Vec<u64> = vec![];
+    let mut per_rule: Vec<u64> = vec![0; specs.len()];
     let mut n = 0;
-    for sp in &specs {
+    let order: Vec<usize> = if reverse { (0..specs.len()).rev().collect() } else { (0..specs.len()).collect() };
+    for i in order {
+        let sp = &specs[i];
         let yaml = sp.yaml();
+        let mut acc: Vec<u64> = vec![];
         if let Ok(r) = eng::load(&yaml) {
             n += 1;
-            let docs = gen::docs_for(sp, 0, 30);
-            for sw in [0u8, 0b1111, 0b1110, 0b1010] {
+            let docs = gen::docs_for(sp, 1, 60);
+            for sw in [0u8, 0b1111, 0b1110, 0b1010, 0b0100] {
                 let o = r.clone().optimise(eng::opts(sw));
                 let bits: String = docs.iter().map(|d| if o.matches(d) { '1' } else { '0' }).collect();
                 acc.push(stable_hash(&(eng::canon(&o), bits, format!("{}", o.detection.expression))));
@@ -486,13 +492,15 @@ pub fn digest() -> (u64, usize) {
                 }).unwrap_or_default()));
             }
         }
+        per_rule[i] = stable_hash(&acc);
     }
-    (stable_hash(&acc), n)
+    (stable_hash(&per_rule), n, per_rule)
 }
 
-pub fn digest_child() -> i32 {
-    let (d, n) = digest();
+pub fn digest_child(reverse: bool) -> i32 {
+    let (d, n, per) = digest(reverse);
     println!("digest {:016x} rules {}", d, n);
+    println!("per-rule {}", per.iter().map(|x| format!("{:x}", x)).collect::<Vec<_>>().join(","));
     0
 }
 
@@ -667,12 +675,17 @@ pub fn run(tier: Tier) -> i32 {
     }
     // part 4: two fresh processes (different environment and working directory) + this process
     let exe = std::env::current_exe().unwrap();
-    let here = digest();
+    let here = digest(false);
+    let specs_d = digest_specs();
     let mut digests: BTreeMap<String, String> = BTreeMap::new();
     digests.insert("in-process".into(), format!("digest {:016x} rules {}", here.0, here.1));
     for (i, (cwd, tz)) in [("/", "UTC"), ("/tmp", "Asia/Tokyo")].iter().enumerate() {
-        let out = std::process::Command::new(&exe)
-            .arg("--c12-digest")
+        let mut cmd = std::process::Command::new(&exe);
+        cmd.arg("--c12-digest");
+        if i == 1 {
+            cmd.arg("reverse");
+        }
+        let out = cmd
             .current_dir(cwd)
             .env("TZ", tz)
             .env("LANG", if i == 0 { "C" } else { "de_DE.UTF-8" })
@@ -680,8 +693,25 @@ pub fn run(tier: Tier) -> i32 {
             .output();
         match out {
             Ok(o) => {
-                let t = String::from_utf8_lossy(&o.stdout).trim().to_string();
-                digests.insert(format!("child{}(cwd={},TZ={})", i, cwd, tz), t);
+                let t = String::from_utf8_lossy(&o.stdout).to_string();
+                let mut lines = t.lines();
+                let first = lines.next().unwrap_or("").trim().to_string();
+                let per: Vec<String> = lines
+                    .next()
+                    .and_then(|l| l.strip_prefix("per-rule "))
+                    .map(|l| l.split(',').map(|x| x.to_string()).collect())
+                    .unwrap_or_default();
+                if first != digests["in-process"] {
+                    // name the first rule whose observable behaviour differs
+                    let mine: Vec<String> = here.2.iter().map(|x| format!("{:x}", x)).collect();
+                    if let Some(k) = (0..mine.len().min(per.len())).find(|k| mine[*k] != per[*k]) {
+                        digests.insert(format!("first-differing-rule(child{})", i), one_line(&specs_d[k].yaml()));
+                    }
+                }
+                digests.insert(
+                    format!("child{}(cwd={},TZ={},order={})", i, cwd, tz, if i == 1 { "reversed" } else { "same" }),
+                    first,
+                );
             }
             Err(e) => {
                 eprintln!("machinery error: cannot run the digest child: {}", e);
@@ -689,7 +719,7 @@ pub fn run(tier: Tier) -> i32 {
             }
         }
     }
-    let distinct: BTreeSet<&String> = digests.values().collect();
+    let distinct: BTreeSet<&String> = digests.iter().filter(|(k, _)| !k.starts_with("first-differing")).map(|(_, v)| v).collect();
     rep.stats.states += 3;
     rep.stats.transitions += 3 * here.1 as u64 * 4;
     rep.stats.traces += 3;
